@@ -138,4 +138,95 @@ theorem ids_remove (r : Ring.Ring) (k id : Nat) :
     · intro hh; exact ⟨hh, fun e => hn (e ▸ hh)⟩
     · intro hh; exact hh.1
 
+/-! ### views of the two mutating operations -/
+
+theorem mem_key_unique {β : Type} (m : List (Nat × β)) (hn : (keys m).Nodup) (e1 e2 : Nat × β)
+    (h1 : e1 ∈ m) (h2 : e2 ∈ m) (hk : e1.1 = e2.1) : e1 = e2 := by
+  have a := lookup_of_mem_nodup m hn e1 h1
+  have b := lookup_of_mem_nodup m hn e2 h2
+  rw [hk, b] at a
+  have : e2.2 = e1.2 := Option.some.inj a
+  exact Prod.ext hk this.symm
+
+theorem addIfMissing_of_none (r : Ring.Ring) (h : RHost) (hn : lookup r.byId h.id = none) :
+    r.addIfMissing h = ({ byId := put r.byId h.id h, byIp := put r.byIp h.addr h.id, list := r.list ++ [h] }, h, false) := by
+  unfold Ring.addIfMissing; rw [hn]
+
+theorem addIfMissing_of_some (r : Ring.Ring) (h e : RHost) (hs : lookup r.byId h.id = some e) :
+    r.addIfMissing h = (r, e, true) := by
+  unfold Ring.addIfMissing; rw [hs]
+
+theorem remove_of_none (r : Ring.Ring) (k : Nat) (hn : lookup r.byId k = none) : r.remove k = (r, false) := by
+  unfold Ring.remove; rw [hn]
+
+theorem remove_of_some (r : Ring.Ring) (k : Nat) (h : RHost) (hs : lookup r.byId k = some h) :
+    r.remove k = ({ byId := erase r.byId k,
+                    byIp := if lookup r.byIp h.addr = some k then erase r.byIp h.addr else r.byIp,
+                    list := eraseFirstId r.list k }, true) := by
+  unfold Ring.remove; rw [hs]
+
+/-- membership in the by-id index after adding a host with a new id -/
+theorem mem_add_new (r : Ring.Ring) (h : RHost) (hn : lookup r.byId h.id = none) (e : Nat × RHost) :
+    e ∈ (r.addIfMissing h).1.byId ↔ e = (h.id, h) ∨ e ∈ r.byId := by
+  rw [addIfMissing_of_none r h hn]
+  simp only [put, List.mem_cons, mem_erase]
+  rw [lookup_eq_none] at hn
+  constructor
+  · rintro (h1 | h1)
+    · exact Or.inl h1
+    · exact Or.inr h1.1
+  · rintro (h1 | h1)
+    · exact Or.inl h1
+    · exact Or.inr ⟨h1, fun hk => hn (hk ▸ List.mem_map.mpr ⟨e, h1, rfl⟩)⟩
+
+theorem byIp_add_new (r : Ring.Ring) (h : RHost) (hn : lookup r.byId h.id = none) :
+    (r.addIfMissing h).1.byIp = put r.byIp h.addr h.id := by
+  rw [addIfMissing_of_none r h hn]
+
+theorem mem_remove (r : Ring.Ring) (k : Nat) (e : Nat × RHost) :
+    e ∈ (r.remove k).1.byId ↔ e ∈ r.byId ∧ e.1 ≠ k := by
+  cases hl : lookup r.byId k with
+  | none =>
+    rw [remove_of_none r k hl]
+    rw [lookup_eq_none] at hl
+    exact ⟨fun h1 => ⟨h1, fun hk => hl (hk ▸ List.mem_map.mpr ⟨e, h1, rfl⟩)⟩, fun h1 => h1.1⟩
+  | some h => rw [remove_of_some r k h hl]; exact mem_erase _ _ _
+
+/-- removing host id `k` leaves every by-address entry that does not map to `k` as it is -/
+theorem byIp_remove_keep (r : Ring.Ring) (k a : Nat) (hne : lookup r.byIp a ≠ some k) :
+    lookup (r.remove k).1.byIp a = lookup r.byIp a := by
+  cases hl : lookup r.byId k with
+  | none => rw [remove_of_none r k hl]
+  | some h =>
+    rw [remove_of_some r k h hl]
+    dsimp only
+    split
+    · rename_i hc
+      have : a ≠ h.addr := fun e => hne (e ▸ hc)
+      exact lookup_erase_ne _ _ _ this
+    · rfl
+
+/-- after removing host id `k` (with address `h.addr`) a by-address entry is an old entry -/
+theorem byIp_remove_sub (r : Ring.Ring) (k a id : Nat) (hs : lookup (r.remove k).1.byIp a = some id) :
+    lookup r.byIp a = some id := by
+  cases hl : lookup r.byId k with
+  | none => rw [remove_of_none r k hl] at hs; exact hs
+  | some h =>
+    rw [remove_of_some r k h hl] at hs
+    dsimp only at hs
+    split at hs
+    · by_cases e : a = h.addr
+      · subst e; rw [lookup_erase_self] at hs; cases hs
+      · rwa [lookup_erase_ne _ _ _ e] at hs
+    · exact hs
+
+/-- after removing host id `k` no by-address entry of the removed host's own address maps to `k` -/
+theorem byIp_remove_self (r : Ring.Ring) (k : Nat) (h : RHost) (hl : lookup r.byId k = some h) :
+    lookup (r.remove k).1.byIp h.addr ≠ some k := by
+  rw [remove_of_some r k h hl]
+  dsimp only
+  split
+  · rw [lookup_erase_self]; exact fun e => by cases e
+  · rename_i hc; exact hc
+
 end C16
